@@ -80,6 +80,11 @@ class Pool:
             {"name": "aa", "type": {"type": "array", "items": {"type": "array", "items": "int"}}, "default": [[1, 2], [3]]},
             {"name": "ma", "type": {"type": "map", "values": {"type": "array", "items": "string"}}, "default": {"k": ["a", "b"]}},
             {"name": "ra", "type": {"type": "record", "name": "Ra", "fields": [{"name": "xs", "type": {"type": "array", "items": "int"}}]}, "default": {"xs": [7, 8]}}]})
+        self.union_ab = fa.parse_schema([{"type": "record", "name": "Ua", "namespace": "un", "fields": [{"name": "x", "type": "int"}]},
+                                        {"type": "record", "name": "Ub", "namespace": "un", "fields": [{"name": "x", "type": "int"}]}])
+        self.hinted = {"-type": "un.Ub", "x": 5}
+        self.dec_s0_p6 = fa.parse_schema({"type": "bytes", "logicalType": "decimal", "precision": 6, "scale": 2})
+        self.dec_s0_p20 = fa.parse_schema({"type": "bytes", "logicalType": "decimal", "precision": 20, "scale": 2})
         self.block = next(iter(fa.block_reader(io.BytesIO(_container_const(fa)))))  # a Block handed to write_block
         self.named = {}  # caller-supplied named-schema dictionary (may be filled)
         self.tmpdir = tmpdir
@@ -245,6 +250,12 @@ CALLS = {
     # a Block taken from block_reader and used more than once
     "block_copy_pool": lambda fa, p: _block_copy(fa, p.block),
     "block_copy_twice": lambda fa, p: _block_twice(fa),
+    "write_hinted_strict": lambda fa, p: _sl_write(fa, p.union_ab, p.hinted, strict=True),
+    "write_hinted": lambda fa, p: _sl_write(fa, p.union_ab, p.hinted),
+    "write_hinted_strict_allow_default": lambda fa, p: _sl_write(fa, p.union_ab, p.hinted, strict_allow_default=True),
+    "validate_hinted": lambda fa, p: fa.validate(p.hinted, p.union_ab, raise_errors=False),
+    "dec_p6_read": lambda fa, p: fa.schemaless_reader(io.BytesIO(b"\x06\x01\xe2\x40"), p.dec_s0_p6),
+    "dec_p20_read": lambda fa, p: fa.schemaless_reader(io.BytesIO(bytes([2 * 7]) + (12345678901234567).to_bytes(7, "big", signed=True)), p.dec_s0_p20),
     "dec3_read": lambda fa, p: fa.schemaless_reader(io.BytesIO(_enc("dec3")), p.dec3),
     "dec12_read": lambda fa, p: fa.schemaless_reader(io.BytesIO(_enc("dec12")), p.dec12),
     "dec_write": lambda fa, p: _sl_write(fa, p.dec12, decimal.Decimal("-42")),
@@ -431,7 +442,7 @@ COLLIDERS = ["parse_a_into_named", "parse_b_into_named", "expand_a", "expand_nod
              "read_a_as_b", "read_b_as_a", "json_read_a_absent", "json_read_a_raw_absent", "json_read_b_absent", "generate_a", "generate_b_raw",
              "dec3_read", "dec12_read", "write_a_bad_last", "container_a", "container_read_a_as_b", "validate_a_raises", "load_schema",
              "parse_node_parsed_into_named", "write_node", "read_a", "read_b", "read_dangling_sub", "canon_piecewise", "container_piecewise",
-             "container_union_piecewise", "container_read_a", "generate_dangling", "json_read_nested_defaults", "block_copy_twice", "block_copy_pool"]
+             "container_union_piecewise", "container_read_a", "generate_dangling", "json_read_nested_defaults", "block_copy_twice", "block_copy_pool", "write_hinted_strict", "write_hinted", "dec_p6_read", "dec_p20_read"]
 
 
 def step_check(res, fa, pool, hist, call):
